@@ -77,6 +77,50 @@ def IBody.fmls (i : Nat) (v : Term) : IBody → List Fml
   | .residue => []
   | .partial_ fs => fs
 
+/-- the defining term of the indicators whose assertions are the single equation `indicator = T`
+    (`defTerm_fmls` below: kept in step with `IBody.fmls` by that proof) -/
+def IBody.defTerm : IBody → Option Term
+  | .expr t [] => some t
+  | .utilization busy (some h) =>
+      if (busy.map (fun b => Term.sub b.e b.s)).isEmpty then none
+      else some (.div (.mul (.sum (busy.map (fun b => Term.sub b.e b.s))) (numT 100)) (numT h))
+  | .nbTasksAssigned busy =>
+      some (sumOrZero (busy.map (fun b => Term.ite (.gt b.s (numT (-1))) (numT 1) (numT 0))))
+  | .tardiness ts =>
+      some (sumOrZero (ts.map (fun t =>
+        let d := numT (t.due.getD 0)
+        Term.ite (.or [.le t.eVar d, .not t.schedF]) (numT 0) (.mul (.sub t.eVar d) (numT t.prio)))))
+  | .earliness ts =>
+      some (sumOrZero (ts.map (fun t =>
+        let d := numT (t.due.getD 0)
+        Term.ite (.and [.ge (.sub d t.eVar) (numT 0), t.schedF]) (.sub d t.eVar) (numT 0))))
+  | .nbTardy ts =>
+      some (sumOrZero (ts.map (fun t => Term.ite (.gt t.eVar (numT (t.due.getD 0))) (numT 1) (numT 0))))
+  | _ => none
+
+theorem IBody.defTerm_fmls (b : IBody) (i : Nat) (v T : Term) (h : b.defTerm = some T) :
+    b.fmls i v = [.eq v T] := by
+  cases b with
+  | expr t extra =>
+      cases extra with
+      | nil => simp only [IBody.defTerm, Option.some.injEq] at h; subst h; rfl
+      | cons x xs => simp [IBody.defTerm] at h
+  | utilization busy horizon =>
+      cases horizon with
+      | none => simp [IBody.defTerm] at h
+      | some hh =>
+          simp only [IBody.defTerm] at h
+          split at h
+          · simp at h
+          · rename_i hne
+            simp only [Option.some.injEq] at h; subst h
+            simp only [IBody.fmls, hne, Bool.false_eq_true, if_false]
+  | nbTasksAssigned busy => simp only [IBody.defTerm, Option.some.injEq] at h; subst h; rfl
+  | tardiness ts => simp only [IBody.defTerm, Option.some.injEq] at h; subst h; rfl
+  | earliness ts => simp only [IBody.defTerm, Option.some.injEq] at h; subst h; rfl
+  | nbTardy ts => simp only [IBody.defTerm, Option.some.injEq] at h; subst h; rfl
+  | _ => simp [IBody.defTerm] at h
+
 /-- `indicator._z3_assertions` -/
 def Indicator.asserts (ind : Indicator) : List Fml := ind.body.fmls ind.id (.var ind.var)
 
